@@ -290,6 +290,11 @@ def run(ctx):
     rule_closure(ctx, eff)
     rule_concat(ctx)
     rule_counting(ctx)
+    # "equals the element-wise comparison of signal+noise with the threshold": signal+noise is a SUM only if both are stored as numbers
+    # (0/1 text and booleans kept as bool arrays add as a logical OR) - C01's storage clause under this property's id
+    from .c01 import rule_numeric_storage
+    rule_numeric_storage(ctx, "C15.6", ("electrical_signal",))
+    ctx.require_min("C15.6", 3)
     ctx.require_min("C15.1", 4)
     ctx.require_min("C15.2", 11)
     ctx.require_min("C15.3", 5)
